@@ -37,6 +37,12 @@ C11 driver.  Case lines (`-` = empty string; flags are 0/1; sides = both|client|
       called; model = `Codegen.BState.run` on that very sequence of calls
   mx <transport> <sides> <k> { <pkg> <name> <n> { 6 tokens as in `manual` }^n }^k
       `manual::Builder::compile` on several services
+  cseq <ctor> <mode> <wrap> <n> { pool block }^n target <pool block> <ncalls> { <j> }^ncalls
+      ONE compiled generated client of pool service `target`, made by <ctor>, used for the calls
+      j… in turn / on clones / concurrently (<mode>) against a router holding the listed servers;
+      call k carries k+1 payload bytes.  Observed per call: the path and the `GrpcMethod`
+      extension a tap between client and router saw, and the answer:
+      calls <ncalls> { <path> <gm service> <gm method> (ok <nvals> <vals…> | err <code>) }^ncalls seen <requests>
   cmt <which> <pkg> <service> <n> { <method> <cs> <ss> <inProto> <outProto> }^n
       the COMMITTED generated file of that crate against its own committed descriptor set
 Observed / model line for gen|manual|prost:
@@ -576,6 +582,92 @@ def handleSrv (rest obs : List String) : String × String :=
       (model, v)
   | _ => bad
 
+def ctors : List String := ["new", "origin", "origin-slash", "icept", "conf", "cloned"]
+def modes : List String := ["same", "clones", "clone-used", "conc"]
+
+/-- `ok <n> <vals…>` from `values`' `ok <vals…>` -/
+def countedValues (idx j kind payload : Nat) : String :=
+  let vs := ((values idx j kind payload).splitOn " ").drop 1
+  String.intercalate " " ("ok" :: toString vs.length :: vs)
+
+/-- one observed call: (path, gm service, gm method, answer tokens joined) -/
+def obsCalls : Nat → List String → Option (List (String × String × String × String) × List String)
+  | 0, rest => some ([], rest)
+  | k + 1, p :: gs :: gm :: "ok" :: n :: rest => do
+    let n ← nat? n
+    if rest.length < n then none
+    let (cs, r) ← obsCalls k (rest.drop n)
+    some ((p, gs, gm, String.intercalate " " ("ok" :: toString n :: rest.take n)) :: cs, r)
+  | k + 1, p :: gs :: gm :: "err" :: code :: rest => do
+    let (cs, r) ← obsCalls k rest
+    some ((p, gs, gm, s!"err {code}") :: cs, r)
+  | _, _ => none
+
+/-- `cseq`: the constructor and the way the one client value is used (<ctor>, <mode>) are not
+handed to the model: every call is predicted as the `e2e` call it would be alone. -/
+def handleCseq (rest obs : List String) : String × String :=
+  match rest with
+  | ctor :: mode :: _wrap :: n :: rest =>
+    if !ctors.contains ctor || !modes.contains mode then bad else
+    match nat? n with
+    | none => bad
+    | some n =>
+      match poolSvcs n rest with
+      | some (reg, "target" :: rest) =>
+        match poolSvc? rest with
+        | some (t, nc :: js) =>
+          match nat? nc, js.mapM nat? with
+          | some nc, some js =>
+            if js.length != nc || nc == 0 || nc > 40 || js.any (fun j => j ≥ t.methods.length) then bad else
+            let cc := clientCalls t.desc t.opts
+            let rreg : List Router.Svc := reg.map (fun p => ⟨serviceNameConst p.desc p.opts, p.desc.methods.map (·.ident)⟩)
+            let nreqOf (kind : Nat) : Nat := if kind == 2 || kind == 3 then 2 else 1
+            let modelCall (k j : Nat) : String :=
+              match cc[j]?, t.methods[j]? with
+              | some c, some (_, ckind) =>
+                let ans :=
+                  match Router.dispatch rreg c.path with
+                  | .handler s m =>
+                    match reg.find? (fun (p : PoolSvc) => serviceNameConst p.desc p.opts == s) with
+                    | some p =>
+                      match findIdx (fun (rm : Bytes × Nat) => rm.1 == m) p.methods 0 with
+                      | some (mj, (_, skind)) => countedValues p.idx mj skind ((k + 1) * nreqOf ckind)
+                      | none => "model-error"
+                    | none => "model-error"
+                  | .panic => "panic"
+                  | _ => "err 12"
+                s!"{sh c.path} {sh c.gmService} {sh c.gmMethod} {ans}"
+              | _, _ => "model-error"
+            let idxs := List.range nc
+            let model := String.intercalate " "
+              (s!"calls {nc}" :: (idxs.zip js).map (fun (k, j) => modelCall k j)) ++ s!" seen {nc}"
+            -- spec, without the model
+            let want := t.want
+            let registered := reg.any (fun p => p.idx == t.idx)
+            let dup := Router.hasDup (reg.map PoolSvc.want)
+            let v :=
+              match obs with
+              | "calls" :: k :: rest =>
+                match obsCalls nc rest with
+                | some (cs, ["seen", seen]) =>
+                  if nat? k != some nc then "fail:no-response-observed" else
+                  verdict (("one-request-per-call", nat? seen == some nc) ::
+                    ((idxs.zip js).zip cs).flatMap (fun ((k, j), (p, gs, gm, ans)) =>
+                      match t.methods[j]? with
+                      | some (route, ckind) =>
+                        [("client-sends-to-the-declared-path", b p == Spec.Codegen.methodPath want route),
+                         ("grpc-method-extension-names-the-call", b gs == want && b gm == route),
+                         ("call-reaches-the-named-method-whatever-the-clients-history",
+                           dup || ans == (if registered then countedValues t.idx j ckind ((k + 1) * nreqOf ckind) else "err 12"))]
+                      | none => [("bad-case", false)]))
+                | _ => "fail:no-response-observed"
+              | _ => "fail:no-response-observed"
+            (model, v)
+          | _, _ => bad
+        | _ => bad
+      | _ => bad
+  | _ => bad
+
 /-- The files the property names (and the descriptor-set files the same run writes). -/
 def committed : List String :=
   ["tonic-health/grpc_health_v1.rs", "tonic-health/grpc_health_v1_fds.rs",
@@ -600,6 +692,7 @@ def handle (case obs : List String) : String × String :=
   | "gx" :: rest => handleGx rest obs
   | "gseq" :: rest => handleGseq rest obs
   | "cmt" :: rest => handleCmt rest obs
+  | "cseq" :: rest => handleCseq rest obs
   | _ =>
     match parseJob case with
     | some j => (renderJob j, judge j obs)
